@@ -14,9 +14,11 @@ import (
 	"github.com/cedar-policy/cedar-go/x/exp/eval"
 )
 
-// nodes: n0,n1 of type A; n2,n3 of type B; plus one entity that is never in a store.
+// nodes: two of type A, two of type B, and the id strings are SHARED across the types
+// (A::"x", A::"y", B::"x", B::"y"): an entity is identified by type and id together, so
+// anything keyed by the id alone conflates two nodes; plus one entity that is never in a store.
 var nodeUID = []types.EntityUID{
-	types.NewEntityUID("A", "n0"), types.NewEntityUID("A", "n1"), types.NewEntityUID("B", "n2"), types.NewEntityUID("B", "n3"),
+	types.NewEntityUID("A", "x"), types.NewEntityUID("A", "y"), types.NewEntityUID("B", "x"), types.NewEntityUID("B", "y"),
 }
 var never = types.NewEntityUID("A", "never")
 var typeNames = []types.EntityType{"A", "B"}
@@ -221,7 +223,7 @@ func family(n int) *core.Family {
 					if want && a != b {
 						nontriv = true
 					}
-					in := func() string { return fmt.Sprintf("store: %s; n%d in %s", g, a, p.targets[b]) }
+					in := func() string { return fmt.Sprintf("store (n0..n3 = A::x, A::y, B::x, B::y): %s; n%d in %s", g, a, p.targets[b]) }
 					guard("eval-in", in, func() {
 						v, err := eval.Eval(xast.Value(ua).In(xast.Value(p.targets[b])).AsIsNode(), env)
 						if err != nil || v != types.Boolean(want) {
@@ -338,7 +340,8 @@ type shapeGraph struct {
 }
 
 func shapeUID(j int) types.EntityUID {
-	return types.NewEntityUID(typeNames[j%2], types.String(fmt.Sprintf("s%d", j)))
+	// consecutive nodes share their id string and differ in type only
+	return types.NewEntityUID(typeNames[j%2], types.String(fmt.Sprintf("s%d", j/2)))
 }
 
 func newShape(desc string, n int) *shapeGraph {
